@@ -301,6 +301,44 @@ fn run_builtin_object(page: usize, sauce_name: &Option<String>) -> Option<(Strin
     None
 }
 
+/// the same font object as the only font of an XBin picture (the writer leaves out a font it takes for the stock one - by
+/// its name -, the loader then falls back to the stock font: the glyphs must be the same either way)
+fn run_builtin_object_xb(page: usize, sauce_name: &Option<String>) -> Option<(String, Value)> {
+    let font = match sauce_name {
+        Some(n) => BitFont::from_sauce_name(n).ok()?,
+        None => BitFont::from_ansi_font_page(page).ok()?,
+    };
+    if font.size.width != 8 || font.length != 256 {
+        return None;
+    }
+    let want = font.convert_to_u8_data();
+    let mut d = DocD::single(20, 3);
+    d.font_mode = 2;
+    d.fonts.push(FontD { slot: 0, name: String::new(), height: 16, builtin: Some(page), data: vec![], sauce_name: sauce_name.clone() });
+    d.layers[0].cells.push(doc::CellD { x: 0, y: 0, ch: 65, fg: 7, bg: 0, attr: 0, fp: 0 });
+    let buf = doc::build(&d);
+    for compress in [true, false] {
+        let bytes = match buf.to_bytes("xb", &save_opts(false, compress)) {
+            Ok(b) => b,
+            Err(e) => return Some(("font|xb|builtin-object|save-error".into(), json!({"error": e.to_string(), "font": font.name}))),
+        };
+        let back = match Buffer::from_bytes(std::path::Path::new("f.xb"), false, &bytes) {
+            Ok(b) => b,
+            Err(e) => return Some(("font|xb|builtin-object|load-error".into(), json!({"error": e.to_string(), "font": font.name}))),
+        };
+        let Some(f) = back.get_font(0) else {
+            return Some(("font|xb|builtin-object|missing-slot".into(), json!({"font": font.name})));
+        };
+        if f.size != font.size || f.length != font.length || f.convert_to_u8_data() != want {
+            return Some((
+                "font|xb|builtin-object|differs".into(),
+                json!({"font": font.name, "saved_size": [font.size.width, font.size.height], "loaded_size": [f.size.width, f.size.height], "loaded_name": f.name, "compress": compress}),
+            ));
+        }
+    }
+    None
+}
+
 fn build_tdf(d: &TdfD) -> TheDrawFont {
     let t = match d.ftype {
         0 => FontType::Outline,
@@ -612,6 +650,11 @@ impl C17 {
                         return Some(v);
                     }
                 }
+                if path == "xb1" {
+                    if let Some(v) = run_builtin_object_xb(*page, sauce_name) {
+                        return Some(v);
+                    }
+                }
                 match f {
                     Ok(f) => {
                         if f.size.width != 8 || f.length != 256 {
@@ -669,7 +712,7 @@ impl Prop for C17 {
         "C17"
     }
     fn rule(&self) -> &'static str {
-        "bitmap fonts (8 x 1..=32, 256 glyphs, 512 for PSF2; all-zero / all-one / random glyph bytes, some starting with a PSF magic number; every built-in page 0..=42 and every SAUCE font) are sent through PSF2 bytes, raw data (create_8, from_basic, from_bytes), the DCS CTerm:Font sequence fed to the real ANSI parser (also after an OSC 8 / OSC 4 / APS / sixel / macro / other font sequence on the same parser), and embedding in XBin (1 and 2 fonts), ADF, IDF and IcyDraw files written and loaded by the engine (with and without a custom palette in the same file, for IDF / ADF / one-font XBin also with the font in slot 3, every cell on page 3 and the stock font in slot 0, with and without a SAUCE record that names the stock font 'IBM VGA' while the embedded glyphs differ; IcyDraw also under empty, non-ASCII and long font names, and every built-in page and SAUCE font also as the font object itself - under its own name - in slots 0, 1, 3, 100 and 255 of an IcyDraw file, with and without the stock font in slot 0); size, glyph count and every glyph must be bit-identical. TheDraw fonts (outline/block/colour, 0..=94 glyphs up to 30x12 - one font in eight with every glyph near that size, a glyph data block beyond 32767 bytes -, names 0..=12, spacing 0..=40, bundles of 1..=34) are written with as_tdf_bytes / create_font_bundle, checked by an independent TDF reader in the harness (writer side) and re-read with from_tdf_bytes (reader side, glyph table via hook H5). distinct_nontrivial = distinct (path, height, glyph count, data class) / (bundle size, glyph layout) fingerprints"
+        "bitmap fonts (8 x 1..=32, 256 glyphs, 512 for PSF2; all-zero / all-one / random glyph bytes, some starting with a PSF magic number; every built-in page 0..=42 and every SAUCE font) are sent through PSF2 bytes, raw data (create_8, from_basic, from_bytes), the DCS CTerm:Font sequence fed to the real ANSI parser (also after an OSC 8 / OSC 4 / APS / sixel / macro / other font sequence on the same parser), and embedding in XBin (1 and 2 fonts), ADF, IDF and IcyDraw files written and loaded by the engine (with and without a custom palette in the same file, for IDF / ADF / one-font XBin also with the font in slot 3, every cell on page 3 and the stock font in slot 0, with and without a SAUCE record that names the stock font 'IBM VGA' while the embedded glyphs differ; IcyDraw also under empty, non-ASCII and long font names, and every built-in page and SAUCE font also as the font object itself - under its own name - in slots 0, 1, 3, 100 and 255 of an IcyDraw file, with and without the stock font in slot 0, and as the only font of an XBin picture); size, glyph count and every glyph must be bit-identical. TheDraw fonts (outline/block/colour, 0..=94 glyphs up to 30x12 - one font in eight with every glyph near that size, a glyph data block beyond 32767 bytes -, names 0..=12, spacing 0..=40, bundles of 1..=34) are written with as_tdf_bytes / create_font_bundle, checked by an independent TDF reader in the harness (writer side) and re-read with from_tdf_bytes (reader side, glyph table via hook H5). distinct_nontrivial = distinct (path, height, glyph count, data class) / (bundle size, glyph layout) fingerprints"
     }
     fn meta(&self, ctx: &Ctx) -> Value {
         json!({"floor_evaluations": 1000, "floor_distinct": ctx.tier.pick(800u64, 5000u64),
